@@ -234,7 +234,10 @@ Parse(ethSrc, key, ip) ==
   /\ Tracks(ethSrc, ip) /\ (ip \in IP6 => key = ethSrc)
   /\ ParseM(key, ip) /\ ParseR(key, ip)
 
-\* a frame that must not be tracked: nothing changes, Notify has no host to work on
+\* a frame that must not be tracked: nothing changes, Notify has no host to work on.
+\* The same step stands for environment events that no rule of C04-C06 mentions and that therefore must not
+\* change what is tracked or notified: the network device refusing the next writes (liveness probes are best
+\* effort; driver kind "wfail"), an expiry attached to a re-announced, unchanged name (driver field "exp").
 UntrackedM == frame' = Nil /\ notes' = <<>> /\ UNCHANGED <<hosts, macs>>
 IdleR == NoExpect /\ UNCHANGED <<now, ref, refNames, refLast>>
 Untracked == UntrackedM /\ IdleR
